@@ -129,7 +129,9 @@ func runC15(c c15Case) (string, string, int) {
 		bgF, thr, _ := detState(d)
 		bg := copyGrid(bgF.Pix)
 		states[i] = st{thr, bg}
-		where := func() string { return fmt.Sprintf("%+v stream %s: after frame %d", c.Cfg, fmtStream(c.Frames[:i+1]), i+1) }
+		where := func() string {
+			return fmt.Sprintf("%+v stream %s: after frame %d", c.Cfg, fmtStream(c.Frames[:i+1]), i+1)
+		}
 		if f.FFC {
 			needSeed = true
 			if thr != prevThr {
@@ -214,7 +216,7 @@ func c15Run(r *ev.Run) {
 			{2, 2, 0, []uint16{lo, mid, hi}, 3},
 		}
 	}
-	r.Rule = "real detector with dynamic threshold: every stream of the stated length over per-pixel alphabets {lo, lo+1, mid, hi} (scene mean below, inside, above [temp-thresh-min,max] = [1200,1400]) for interiors of 1, 2 and 4 pixels (edge-pixels 0,1,2), with at most one FFC period of any length and at most one camera reset at any position; (min,max) in {unset,set}^2; preview frames 0,1,2. Oracle after every frame (deep layer) and at every sink StartRecording (API level, processor with min=max=0 so every motion frame starts a recording): background <= frame on the interior, border replicates nearest interior pixel, re-seeded after FFC/reset, threshold either unchanged or the bounded mean (+-1 float truncation), stored background/threshold = the ones in force. Non-trivial = stream in which the threshold was recomputed."
+	r.Rule = "real detector with dynamic threshold: every stream of the stated length over per-pixel alphabets {lo, lo+1, mid, hi} (scene mean below, inside, above [temp-thresh-min,max] = [1200,1400]) for interiors of 1, 2 and 4 pixels (edge-pixels 0,1,2), with at most one FFC period of any length and at most one camera reset at any position; (min,max) in {unset,set}^2 plus min==max (threshold pinned inside / at the bottom of the scene range); preview frames 0,1,2. Oracle after every frame (deep layer) and at every sink StartRecording (API level, processor with min=max=0 so every motion frame starts a recording): background <= frame on the interior, border replicates nearest interior pixel, re-seeded after FFC/reset, threshold either unchanged or the bounded mean (+-1 float truncation), stored background/threshold = the ones in force. Non-trivial = stream in which the threshold was recomputed."
 	c15APIEverywhere = r.Thorough()
 	r.Bounds["api_level_on"] = map[bool]string{true: "all shapes", false: "shapes up to 3x3 (deep layer on all)"}[c15APIEverywhere]
 	r.Assumptions = []string{"deep layer reads detector.background / tempThresh by name; API layer needs no private access"}
@@ -226,7 +228,7 @@ func c15Run(r *ev.Run) {
 	}
 	var jobs []job
 	for _, sh := range shapes {
-		for _, mm := range [][2]uint16{{0, 0}, {1200, 0}, {0, 1400}, {1200, 1400}} {
+		for _, mm := range [][2]uint16{{0, 0}, {1200, 0}, {0, 1400}, {1200, 1400}, {1300, 1300}, {1101, 1101}} {
 			for pv := 0; pv <= 2; pv++ {
 				cfg := DCfg{ResX: sh.x, ResY: sh.y, Edge: sh.e, T: 1000, Delta: 10, Count: 1, Gap: 1, OneDiff: true, Warmer: true, Dynamic: true, TMin: mm[0], TMax: mm[1], Preview: pv}
 				enumStrings("NF", sh.L, nil, func(s []byte) {
